@@ -38,7 +38,7 @@ def gen_cases(tier, seed, configs):
             sp.append((name, code, r.randrange(1, 10 ** 6), r.choice([1, 2, 4, 8, 16])))
         for si, (name, code, sd, nw) in enumerate(sp):
             body += ["mark p%d" % si, "build bs=%d mode=%d" % (bs, mode),
-                     "exec starpu flags=%d upper=%d sched=%d seed=%d workers=%d" % (flags, upper, code, sd, nw), "dump values"]
+                     "exec %s flags=%d upper=%d sched=%d seed=%d workers=%d" % ("starpu" if si == 0 else "specx", flags, upper, code, sd, nw), "dump values"]
         cases.append(corefam.make_case("c03-%d" % k, D, H, periodic, parts, bs, mode, body, {"kind": kind, "upper": upper, "scheds": scheds, "starpu": sp}))
     return cases
 
@@ -73,14 +73,15 @@ def evaluate(res):
         seg = cs.get("p%d" % si)
         if seg is None:
             continue
-        label = "StarPU executor (mock runtime), schedule %s seed=%d workers=%d" % (name, sd, nw)
+        rt = "StarPU" if si == 0 else "Specx"
+        label = "%s executor (mock runtime), schedule %s seed=%d workers=%d" % (rt, name, sd, nw)
         e, v = core.elems_of_calls(seg), sorted(core.section(seg, "V "))
         if v != ref_v:
             d = [(x, y) for x, y in zip(v, ref_v) if x != y][:2]
-            orc.append(("C03:starpu-values", "%s leaves values different from the sequential executor: %r" % (label, d)))
+            orc.append(("C03:%s-values" % rt.lower(), "%s leaves values different from the sequential executor: %r" % (label, d)))
         elif e != ref_e:
             a, b, na, nb = core.multiset_diff(e, ref_e)
-            orc.append(("C03:starpu-elems", "%s performs %r (%d) / misses %r (%d) w.r.t. the sequential executor" % (label, a, na, b, nb)))
+            orc.append(("C03:%s-elems" % rt.lower(), "%s performs %r (%d) / misses %r (%d) w.r.t. the sequential executor" % (label, a, na, b, nb)))
         orc += [("C03:X", label + ": " + x) for x in core.section(seg, "X ")]
         orc += [(s_, label + ": " + m) for s_, m in C02.call_predicates(c, seg)]
     return corr, orc
@@ -91,4 +92,4 @@ def run(rep, tier, seed, replay, proof_ok, proof_msg):
                          corr_name="OpenMP executor (mock runtime, all tasks deferred) vs sequential executor vs Lean model")
     rep.assumptions += ["a conforming runtime = one that starts a task only after every earlier task with a conflicting declared dependence finished (harness/mock_gomp.cpp)",
                         "gcc 12 (_OPENMP=201511): `commute` is `inout`, so commuting writers are ordered by submission",
-                        "libgomp itself is not exercised; the StarPU executors run under an API-compatible mock of the StarPU subset they use (deferral to the final wait, sequential data consistency per handle, commuting RW|COMMUTE accesses); Specx is a C++ template runtime absent from the sandbox: its executors are not run"]
+                        "libgomp itself is not exercised; the StarPU and Specx executors run under API-compatible mocks of the subsets they use (harness/mock_starpu*, harness/mock_specx/: deferral to the final wait, sequential consistency per handle / address, commuting accesses unordered); the CUDA variants are not run"]
